@@ -114,6 +114,16 @@ def _run_shard(binary, mode, shard_path, out_path, prog_path, timeout_case, extr
                     tail = lf.read().decode('utf-8', 'replace')
             except Exception:
                 pass
+            # the reason of a Go runtime abort is the FIRST line of a long goroutine dump: look for the last such line in the log
+            try:
+                with open(log_path, 'rb') as lf:
+                    lf.seek(max(0, os.path.getsize(log_path) - (8 << 20)))
+                    big = lf.read().decode('utf-8', 'replace')
+                why = [l for l in big.split('\n') if l.startswith(('fatal error:', 'panic:', 'runtime: out of memory', 'runtime: cannot allocate', 'SIGSEGV', 'unexpected fault address'))]
+                if why and why[-1] not in tail:
+                    tail = why[-1] + '\n...\n' + tail
+            except Exception:
+                pass
             kind = 'wall_timeout' if rc == -999 else 'crash'
             synthetic.append({'id': last_id, kind: True, 'rc': rc, 'log_tail': tail})
         skip = last_n
